@@ -9,6 +9,7 @@ import (
 	"strconv"
 	"strings"
 	"time"
+	"unsafe"
 
 	tally "github.com/uber-go/tally/v4"
 	"github.com/uber-go/tally/v4/m3"
@@ -31,10 +32,56 @@ func init() {
 	register("scope-c07seq", "C07", "scope", func(c *Ctx) { suiteScope(c, "c07") })
 }
 
-var scopeStrPool = []string{"a", "b", "c", "ab", "svc", "x.y", "", "a+b", "k=v", "a,b", "a\\b", "+", ",", "=", "1,b=2", "é", "世界", "a\xffb", "\xc0", "A_B-c", "foo bar", "a:b", "p/q", "\x00"}
+var scopeStrPool = []string{"a", "b", "c", "ab", "svc", "x.y", "", "a+b", "k=v", "a,b", "a\\b", "+", ",", "=", "1,b=2", "é", "世界", "a\xffb", "a\xfeb", "a\ufffdb", "\xc0", "\xc1", "\ufffd", "\xe4\xb8", "A_B-c", "foo bar", "a:b", "p/q", "\x00"}
 
 var aliasMode bool
 var aliasPool = []string{"k 1", "k+1", "k_1", "k,1"}
+
+// rawTime mirrors the layout of time.Time (wall, ext, loc: unchanged since Go 1.9); used only to emulate what
+// time.Now() returns after the wall clock was stepped: same monotonic reading, different wall reading.
+type rawTime struct {
+	wall uint64
+	ext  int64
+	loc  *time.Location
+}
+
+// wallStepClock returns two instants as time.Now() would produce them d apart on the monotonic clock with the wall
+// clock stepped in between (so that the wall readings are NOT d apart).  ok is false when d is out of the range
+// where that can be emulated, in 60% of the calls (the scripted wall-only clock stays the common case), or when
+// the emulation does not pass its own sanity check (layout of time.Time not as expected).
+func wallStepClock(r *Rng, d int64) ([2]time.Time, bool) {
+	if !r.Chance(40) {
+		return [2]time.Time{}, false
+	}
+	return wallStepInstants(r, d)
+}
+
+func wallStepInstants(r *Rng, d int64) ([2]time.Time, bool) {
+	var out [2]time.Time
+	if d < -1e12 || d > 1e12 {
+		return out, false
+	}
+	step := []int64{-3600, 3600, -86400 * 365, 7, -1}[r.Intn(5)]
+	start := time.Now()
+	stop := start.Add(time.Duration(d))
+	if unsafe.Sizeof(stop) != unsafe.Sizeof(rawTime{}) {
+		return out, false
+	}
+	raw := (*rawTime)(unsafe.Pointer(&stop))
+	if raw.wall>>63 != 1 {
+		return out, false
+	}
+	sec := int64(raw.wall<<1>>31) + step
+	if sec < 0 || sec >= 1<<33 {
+		return out, false
+	}
+	raw.wall = 1<<63 | uint64(sec)<<30 | (raw.wall & (1<<30 - 1))
+	if stop.Sub(start) != time.Duration(d) || stop.Round(0).Sub(start.Round(0)) != time.Duration(d)+time.Duration(step)*time.Second {
+		return out, false
+	}
+	out[0], out[1] = start, stop
+	return out, true
+}
 
 func genScopeStr(r *Rng, nonEmpty bool) string {
 	if aliasMode && r.Chance(75) {
@@ -89,6 +136,7 @@ func genSan(r *Rng) sanGen {
 }
 
 type scopeRun struct {
+	wide     bool // tag maps of 9-14 entries over 24 labels (merged maps beyond any small-input fast path)
 	c        *Ctx
 	r        *Rng
 	kind     string
@@ -290,10 +338,16 @@ func (sr *scopeRun) shardFor(p int, subName *string, tags map[string]string) int
 // a tag map whose sanitized keys are pairwise distinct (otherwise Go's map order decides)
 func (sr *scopeRun) genTags(maxN int) map[string]string {
 	n := sr.r.Intn(maxN + 1)
+	if sr.wide {
+		n = 9 + sr.r.Intn(6)
+	}
 	m := map[string]string{}
 	seen := map[string]bool{}
 	for i := 0; i < n; i++ {
 		k := genScopeStr(sr.r, false)
+		if sr.wide {
+			k = fmt.Sprintf("l%02d", sr.r.Intn(24))
+		}
 		sk := sr.san.Key(k)
 		if seen[sk] {
 			continue
@@ -578,10 +632,20 @@ func scopeKeyCases(c *Ctx, n int) {
 		nm := r.Range(0, 3)
 		maps := make([]map[string]string, nm)
 		toks := make([]string, nm)
+		wide := r.Chance(8)
+		if wide {
+			nm = r.Range(2, 3)
+			maps, toks = make([]map[string]string, nm), make([]string, nm)
+			c.Cov.Hit("key.wide-maps")
+		}
 		for j := range maps {
 			maps[j] = map[string]string{}
-			for k := r.Intn(4); k > 0; k-- {
+			for k := r.Intn(4); k > 0 && !wide; k-- {
 				maps[j][genScopeStr(r, false)] = genScopeStr(r, false)
+			}
+			for k := 9 + r.Intn(6); k > 0 && wide; k-- {
+				// 9-14 entries per map over 24 labels: more than 16 pairs in all, several keys overridden
+				maps[j][fmt.Sprintf("l%02d", r.Intn(24))] = genScopeStr(r, false)
 			}
 			toks[j] = mapHex(maps[j])
 		}
@@ -627,6 +691,10 @@ func runScopeProgram(c *Ctx, r *Rng, mode string) {
 		consLive: map[string]int64{}, consFuzzy: map[string]bool{}, consGot: map[string]int64{}, gLast: map[string]string{}, gFuzzy: map[string]bool{}, gGot: map[string]string{}, mScope: map[int]int{}, mNT: map[int]string{},
 		histPairs: map[string]map[string]bool{}, histUps: map[string]map[string]bool{}}
 	sg := genSan(r)
+	if (mode == "c04" || mode == "c05") && r.Chance(6) {
+		sr.wide = true
+		c.Cov.Hit("tags.wide-maps")
+	}
 	aliasMode = false
 	if mode == "c07" && r.Chance(40) {
 		o := m3.DefaultSanitizerOpts
@@ -963,7 +1031,8 @@ func runScopeProgram(c *Ctx, r *Rng, mode string) {
 				}
 				if r.Chance(8) {
 					// a non-nil specification without bounds: one bucket of its own kind, not the default buckets
-					b = []tally.Buckets{tally.ValueBuckets{}, tally.DurationBuckets{}}[r.Intn(2)]
+					// (spelled as an empty literal or as a typed nil slice - `var set tally.ValueBuckets` - inside the interface)
+					b = []tally.Buckets{tally.ValueBuckets{}, tally.DurationBuckets{}, tally.ValueBuckets(nil), tally.DurationBuckets(nil)}[r.Intn(4)]
 					c.Cov.Hit("hist.empty-spec")
 				}
 				sr.noteHist(p, name, b)
@@ -995,9 +1064,21 @@ func runScopeProgram(c *Ctx, r *Rng, mode string) {
 					d = []int64{0, -1, math.MaxInt64, math.MinInt64, 1}[r.Intn(5)]
 				}
 				if r.Chance(30) { // stopwatch with the scripted clock
-					sw := m.Start()
-					clockNow = clockNow.Add(time.Duration(d))
-					sw.Stop()
+					if stepped, ok := wallStepClock(r, d); ok {
+						// the wall clock is stepped (NTP, `date -s`) between Start and Stop: the instants are what
+						// time.Now() returns then - monotonic readings d apart, wall readings an hour or a year off
+						saved := clockNow
+						clockNow = stepped[0]
+						sw := m.Start()
+						clockNow = stepped[1]
+						sw.Stop()
+						clockNow = saved
+						c.Cov.Hit("timer.stopwatch.wall-clock-stepped")
+					} else {
+						sw := m.Start()
+						clockNow = clockNow.Add(time.Duration(d))
+						sw.Stop()
+					}
 					c.Cov.Hit("timer.stopwatch")
 				} else {
 					m.Record(time.Duration(d))
@@ -1014,9 +1095,19 @@ func runScopeProgram(c *Ctx, r *Rng, mode string) {
 				} else {
 					d := int64(r.Range(0, 10)) * 1e6
 					if r.Chance(30) {
-						sw := m.Start()
-						clockNow = clockNow.Add(time.Duration(d))
-						sw.Stop()
+						if stepped, ok := wallStepClock(r, d); ok {
+							saved := clockNow
+							clockNow = stepped[0]
+							sw := m.Start()
+							clockNow = stepped[1]
+							sw.Stop()
+							clockNow = saved
+							c.Cov.Hit("histogram.stopwatch.wall-clock-stepped")
+						} else {
+							sw := m.Start()
+							clockNow = clockNow.Add(time.Duration(d))
+							sw.Stop()
+						}
 						c.Cov.Hit("histogram.stopwatch")
 					} else {
 						m.RecordDuration(time.Duration(d))
